@@ -222,6 +222,23 @@ class Interp(Engine):
         if isinstance(node.op, ast.Add) and isinstance(cur, SV) and parse_tag(cur.ty)[0] == "list":
             self.set_list(cur, z3.Concat(self.list_of(cur), self.as_seq(rhs, node)))
             return
+        if isinstance(node.op, (ast.Sub, ast.BitOr, ast.BitAnd, ast.BitXor)) and isinstance(cur, SV):
+            k = parse_tag(cur.ty)[0]
+            if k == "opt":
+                k = parse_tag(parse_tag(cur.ty)[1])[0]
+            in_place = None
+            if k == "set":
+                in_place = True
+            elif k == "anyset":
+                in_place = self.branch(so.typeof(self.refof(cur)) == self.cids.cid("set"), "augassign on mutable set L%d" % node.lineno)
+            if in_place:
+                # s -= t, s |= t, s &= t on a mutable set update the object itself
+                ma, mb = self.setmap_of(cur), self.as_setmap(rhs, node)
+                op = {ast.Sub: set_diff, ast.BitOr: set_union, ast.BitAnd: set_inter}.get(type(node.op))
+                if op is None:
+                    self.unsupported(node, "^= on set")
+                self.set_setmap(cur, op(ma, mb))
+                return
         v = self.binop(node.op, cur, rhs, node)
         self.assign(node.target, v, node)
 
@@ -693,6 +710,14 @@ class Interp(Engine):
         return self.new_set(m)
 
     def ev_Dict(self, node):
+        if self.spec_mode and node.keys and all(isinstance(k, ast.Constant) for k in node.keys):
+            vals = [self.ev(v) for v in node.values]
+            if any(not isinstance(v, (SV, TupV, ClassV)) for v in vals):
+                return StaticDictV({k.value: v for k, v in zip(node.keys, vals)})
+            m = so.EMPTY_KW
+            for k, v in zip(node.keys, vals):
+                m = z3.Store(m, self.to_term(self.const(k.value), node), self.to_term(v, node))
+            return PMap(m)
         m = so.EMPTY_KW
         for k, v in zip(node.keys, node.values):
             if k is None:
